@@ -133,12 +133,12 @@ fn main() {
     // table links
     let max_tbl = if thorough { 8 } else { 6 };
     let mut names = table_names(max_tbl);
-    if !thorough { r.shuffle(&mut names); names.truncate(10); }
+    if !thorough { r.shuffle(&mut names); names.truncate(22); }
     else { r.shuffle(&mut names); names.truncate(45); }
     for n in names { if let Some(l) = load(&n) { cases.push(mk(&n, l)); } }
 
     // random braid closures
-    let n_braids = if thorough { 60 } else { 14 };
+    let n_braids = if thorough { 60 } else { 30 };
     for _ in 0..n_braids {
         let strands = 2 + r.below(if thorough { 4 } else { 3 }) as usize;
         let len = (strands - 1) + r.below(if thorough { 6 } else { 4 }) as usize;
@@ -148,7 +148,7 @@ fn main() {
 
     // variants of the plain PD codes: kinks, renumbering, reordering
     let base: Vec<(String, Pd)> = cases.iter().filter(|c| is_plain_pd(&c.link) && !c.link.is_empty()).map(|c| (c.name.clone(), pd_of(&c.link))).collect();
-    let n_var = if thorough { 50 } else { 12 };
+    let n_var = if thorough { 50 } else { 24 };
     for _ in 0..n_var {
         let (name, pd) = r.pick(&base).clone();
         if pd.len() > (if thorough { 7 } else { 5 }) { continue }
